@@ -6,6 +6,7 @@ import contextlib
 import io
 import json
 import os
+import zlib
 import subprocess
 import sys
 import traceback
@@ -129,3 +130,22 @@ def _collect(res, out_path):
                     res.files[fn] = open(os.path.join(d, fn)).read()
                 except Exception:  # noqa: BLE001
                     pass
+
+
+# ---------------------------------------------------------------- job ids
+TOP_LEVEL_JOB = zlib.crc32(b"top_level_multifile") % 10000
+
+
+def job_ids(paths):
+    """the job ids MultifileIngest gives the inputs of ONE run, in -i order: crc32(path) % 10000, and the next free id
+    when an earlier input of the same run (or the multi-file ingest itself) already has it (fix C20/C15: two different
+    inputs never share an id; the same path listed twice does)"""
+    in_use = {TOP_LEVEL_JOB: "top_level_multifile"}
+    out = []
+    for p in paths:
+        j = zlib.crc32(str(p).encode()) % 10000
+        while in_use.get(j, str(p)) != str(p):
+            j = (j + 1) % 10000
+        in_use[j] = str(p)
+        out.append(j)
+    return out
